@@ -1036,11 +1036,7 @@ func toStringOK(tok string) bool {
 	if math.IsNaN(f) || math.IsInf(f, 0) || f == 0 {
 		return true
 	}
-	lim := float64(1 << 53)
-	if k == "f32" && inner != tok {
-		lim = 1 << 24 // stored with a float32 payload: float32 digits
-	}
-	return f == math.Trunc(f) && math.Abs(f) < lim
+	return f == math.Trunc(f) && math.Abs(f) < 1<<53
 }
 
 // isObjectGo reports whether the Go value token is stored as an object (or rejected).
